@@ -185,3 +185,11 @@ Theorem C05_src_run_schedule_example :
           /\ m_stat r3 = ((1 - Rpower (IZR (3 - 1)) (- Q2R (4 # 5))) * INR 2 + Rpower (IZR (3 - 1)) (- Q2R (4 # 5)) * INR 3)%R).
 Proof. exact ScheduleDemo.schedule_of_a_run. Qed.
 Print Assumptions C05_src_run_schedule_example.
+
+(** The executable projection the recorded fits are compared with (`check_msteps`, T2) is the projection of the same machine:
+    counter, branch and flag of every logged maximisation. *)
+Theorem C05_src_log_observed : forall (nb : Z) (p : Q) (s : nat -> R) (l : list item) (log : list mrec),
+  src_log nb p s l = Some log ->
+  map (fun r => (m_iter r, m_memoryless r, m_flag r)) log = mstep_obs nb l.
+Proof. exact src_log_obs. Qed.
+Print Assumptions C05_src_log_observed.
